@@ -1347,9 +1347,8 @@ def gen_conc_case(rng):
     return {'max0': max0, 'values': values, 'moves': moves}
 
 
-def conc_judge(ctx, case, obs):
-    """-> None or (sig, what)"""
-    ans = ctx.driver.batch(conc_requests(case, obs))
+def conc_verdict(obs, ans):
+    """reads the Lean side's answers for one run (lockrun + one judge_call per driver call) -> None or (sig, what)"""
     for a in ans:
         if 'driver_error' in a:
             raise RuntimeError('driver error: %s' % a['driver_error'])
@@ -1365,29 +1364,41 @@ def conc_judge(ctx, case, obs):
     return None
 
 
+def conc_judge(ctx, case, obs):
+    """-> None or (sig, what)"""
+    return conc_verdict(obs, ctx.driver.batch(conc_requests(case, obs)))
+
+
 def run_concurrent(ctx, res, big):
-    from vlib.sched import explore, ReplayThenDefault
+    from vlib.sched import explore
     ncases = ctx.budget(14, 120)
     seen_sigs = set()
     for _ in range(ncases):
         case = gen_conc_case(ctx.rng)
-        nruns = 0
+        runs, reqs = [], []
         for prefix, sched, obs in explore(lambda pol: conc_run(case, pol), max_preemptions=2, max_runs=60 if big else 30):
-            nruns += 1
             if obs['result']['aborted'] not in (None,):
                 raise RuntimeError(f'scheduler aborted ({obs["result"]["aborted"]}) on {case}')
+            r = conc_requests(case, obs)
+            runs.append((list(prefix), obs, len(r)))
+            reqs += r
+        answers = ctx.driver.batch(reqs)      # one driver process per case
+        pos = 0
+        for prefix, obs, n in runs:
+            ans = answers[pos:pos + n]
+            pos += n
             res.evaluations += 1
             res.traces += 1
             res.count('concurrent.schedules')
             res.count('concurrent.driver-calls', len(obs['calls']))
             if any(e[0] == 'move' for e in obs['events']) and obs['calls']:
-                res.nontriv(['conc', case, list(prefix)])
-            bad = conc_judge(ctx, case, obs)
+                res.nontriv(['conc', case, prefix])
+            bad = conc_verdict(obs, ans)
             if bad and bad[0] not in seen_sigs:
                 # a broken discipline is reported once; the search goes on for a schedule with a call outside the limits
                 seen_sigs.add(bad[0])
                 res.violations.append({'sig': bad[0], 'what': bad[1],
-                                       'case': {'concurrent': case, 'schedule': list(prefix)}})
+                                       'case': {'concurrent': case, 'schedule': prefix}})
             if bad and bad[0].endswith('call-outside-current-limits'):
                 break
 
@@ -1582,7 +1593,7 @@ def merge_judge(ctx, case, obs):
 
 def run_merging(ctx, res, big):
     from vlib.sched import explore
-    ncases = ctx.budget(30, 150)
+    ncases = ctx.budget(40, 200)
     reported = set()
     ndis = 0
     cases = []
@@ -1707,7 +1718,7 @@ def shared_requests(ctx, rec):
 
 def run_shared(ctx, res, big):
     from vlib.sched import RandomPolicy
-    ncases = ctx.budget(40, 300)
+    ncases = ctx.budget(60, 300)
     reported = set()
     ndis = [0]
 
@@ -1894,7 +1905,7 @@ def wire_run(case, chunking):
 
 
 def run_wire(ctx, res, big):
-    ncases = ctx.budget(40, 400)
+    ncases = ctx.budget(60, 400)
     reported = set()
     ndis = [0]
 
@@ -2024,7 +2035,7 @@ def run(ctx):
             entry = json.load(open(os.path.join(cdir, fn)))
             if 'case' in entry:
                 cases.append(entry['case'])
-    seeds = [rng.randrange(1 << 40) for _ in range(ctx.budget(450, 4000))]
+    seeds = [rng.randrange(1 << 40) for _ in range(ctx.budget(600, 5000))]
     state = {'skipped': 0, 'shrunk': 0, 'ncases': 0}
 
     def process(cases):
